@@ -212,19 +212,15 @@ def reset_z(
     n_qubits = tableau.n_qubits  # number of qubits
     assert qubit_position < n_qubits
     assert intended_state == 0 or intended_state == 1
-    tableau, outcome, probabilistic = z_measurement_gate(
+    tableau, outcome, _ = z_measurement_gate(
         tableau, qubit_position, measurement_determinism
     )
-    if probabilistic:
-        tableau.phase[probabilistic] = intended_state
-        tableau.iphase[probabilistic] = 0
+    # the tableau now describes the post-measurement state for the outcome that was obtained (random or forced);
+    # the other qubits depend on that outcome, so the qubit is flipped rather than its sign overwritten
+    if outcome == intended_state:
         return tableau
-
     else:
-        if outcome == intended_state:
-            return tableau
-        else:
-            return x_gate(tableau, qubit_position)
+        return x_gate(tableau, qubit_position)
 
 
 def reset_x(
